@@ -21,7 +21,12 @@ CASES = [
     Case('rhs_tick_only_one_branch', PC + 'Van_der_Pol_implicit.py', "        self.work_counters['rhs']()\n        return f", "        if t > 0:\n            self.work_counters['rhs']()\n        return f", 'C14.R5', 'vanderpol.eval_f'),
     Case('filter_any_key', SH, 'if all([k._asdict().get(k2, None) == v2', 'if any([k._asdict().get(k2, None) == v2', 'C14.R6', 'filter_stats'),
     Case('sort_descending', SH, 'sorted_data = sorted(result, key=lambda tup: tup[0])', 'sorted_data = sorted(result, key=lambda tup: tup[0], reverse=True)', 'C14.R6', 'sort_stats'),
+    Case('logwork_baseline_first_seen_only', H + 'log_work.py', "        if level_number == 0:\n            self.__work_last_step[step.status.slot] = [", "        if level_number == 0 and step.status.slot not in self.__work_last_step:\n            self.__work_last_step[step.status.slot] = [", 'C14.R8', 'LogWork.pre_step', note='work done between steps is charged to the next step'),
+    Case('logwork_baseline_rolled_in_post_step', H + 'log_work.py', "                value=L.prob.work_counters[key].niter - self.__work_last_step[step.status.slot][level_number][key],\n            )\n", "                value=L.prob.work_counters[key].niter - self.__work_last_step[step.status.slot][level_number][key],\n            )\n            self.__work_last_step[step.status.slot][level_number][key] = L.prob.work_counters[key].niter\n", 'C14.R8', 'LogWork ::'),
+    Case('logwork_records_absolute_counter', H + 'log_work.py', "value=L.prob.work_counters[key].niter - self.__work_last_step[step.status.slot][level_number][key],", "value=L.prob.work_counters[key].niter,", 'C14.R8', 'LogWork.post_step'),
+    Case('filter_generation_per_time_only', SH, "restarts[me.type] = max([restarts.get(me.type, 0), me.num_restarts])", "restarts[me.type] = max([max(restarts.values(), default=0), me.num_restarts])", 'C14.R7', 'filter_stats'),
     # twins
+    Case('twin_logwork_local_alias', H + 'log_work.py', "        L = step.levels[level_number]\n        for key in self.__work_last_step[step.status.slot][level_number].keys():", "        L = step.levels[level_number]\n        lvl = level_number\n        for key in self.__work_last_step[step.status.slot][level_number].keys():", benign=True),
     Case('twin_kwargs_reordered', H + 'log_step_size.py', "            process=step.status.slot,\n            time=L.time,\n", "            time=L.time,\n            process=step.status.slot,\n", benign=True),
     Case('twin_tick_first', PC + 'Lorenz.py', "        f = self.dtype_f(self.init)\n", "        self.work_counters['rhs']()\n        f = self.dtype_f(self.init)\n", benign=True, more=[("        self.work_counters['rhs']()\n        return f", "        return f")]),
 ]
